@@ -1,8 +1,9 @@
 package mon
 
 // BuildModes: which instrumented builds of the worker a check runs.
-//   cover: -cover -covermode=atomic (block counters: step clock + reach evidence)
-//   race:  -race (data-race detector, implies checkptr)
+//
+//	cover: -cover -covermode=atomic (block counters: step clock + reach evidence)
+//	race:  -race (data-race detector, implies checkptr)
 func BuildModes(prop, tier string) []string {
 	switch prop {
 	case "C07":
